@@ -756,3 +756,91 @@ def c29(tier):
        samples=0)       # (the harness's own DuckDB replica keeps both tables alive: its self-check does not apply to this template)
     TC("input_names_variant", binop("+", "DS_4", var("ds_4")))
     return out
+
+
+# ------------------------------------------------------------------------------------------ nested expressions split over two statements
+def split_variants(tpls, prefix="split_"):
+    """For templates whose result expression has a dataset-valued sub-expression as a direct operand, the same computation written as two
+    statements (DS_t := <operand>; DS_r := <expression over DS_t>): the intermediate result then goes through the result registry, the
+    DAG schedule and the structure bookkeeping between statements."""
+    import copy
+    import vtlengine.AST as A_
+    out = []
+    EXPR = (A_.BinOp, A_.UnaryOp, A_.ParamOp, A_.MulOp, A_.RegularAggregation, A_.Aggregation, A_.JoinOp, A_.If, A_.Analytic)
+
+    def has_ds(x, seen=None):
+        seen = seen if seen is not None else set()
+        if x is None or id(x) in seen:
+            return False
+        seen.add(id(x))
+        if isinstance(x, (list, tuple)):
+            return any(has_ds(y, seen) for y in x)
+        if isinstance(x, A_.VarID):
+            return str(x.value).startswith("DS_")
+        if hasattr(x, "__dataclass_fields__"):
+            return any(has_ds(getattr(x, f), seen) for f in x.__dataclass_fields__)
+        return False
+
+    def _chain(x):
+        while isinstance(x, A_.RegularAggregation):
+            yield x
+            x = x.dataset
+        yield x
+
+    for t in tpls:
+        ast = copy.deepcopy(t["ast"])
+        last = ast.children[-1]
+        if not isinstance(last, A_.Assignment):
+            continue
+        e = last.right
+        slot = None
+        if isinstance(e, A_.BinOp):
+            for f in ("left", "right"):
+                if isinstance(getattr(e, f), EXPR) and has_ds(getattr(e, f)):
+                    slot = (e, f, None)
+                    break
+        elif isinstance(e, A_.UnaryOp) and isinstance(e.operand, EXPR) and has_ds(e.operand):
+            slot = (e, "operand", None)
+        elif isinstance(e, (A_.ParamOp, A_.MulOp)) and e.children:
+            for k, ch in enumerate(e.children):
+                if isinstance(ch, EXPR) and has_ds(ch):
+                    slot = (e, "children", k)
+                    break
+        elif isinstance(e, A_.RegularAggregation) and isinstance(e.dataset, EXPR) and has_ds(e.dataset) and not isinstance(e.dataset, A_.JoinOp):
+            # (a clause on a join is the join's body: alias#component names only exist there, so it is not hoisted)
+            inner_join_body = isinstance(e.dataset, A_.RegularAggregation) and any(isinstance(x, A_.JoinOp) for x in _chain(e.dataset))
+            if not inner_join_body:
+                slot = (e, "dataset", None)
+        elif isinstance(e, A_.Aggregation) and isinstance(e.operand, EXPR) and has_ds(e.operand):
+            slot = (e, "operand", None)
+        if slot is None:
+            continue
+        node, f, k = slot
+        inner = getattr(node, f) if k is None else getattr(node, f)[k]
+        ref = A_.VarID(value="DS_t", line_start=1, column_start=1, line_stop=1, column_stop=1)
+        if k is None:
+            setattr(node, f, ref)
+        else:
+            getattr(node, f)[k] = ref
+        pre = A_.Assignment(left=A_.VarID(value="DS_t", line_start=1, column_start=1, line_stop=1, column_stop=1), op=":=", right=inner,
+                            line_start=1, column_start=1, line_stop=1, column_stop=1)
+        ast.children.insert(len(ast.children) - 1, pre)
+        d = dict(t)
+        d["id"] = prefix + t["id"]
+        d["ast"] = ast
+        d["check"] = ["DS_r"]
+        out.append(d)
+    return out
+
+
+def _with_splits(fn):
+    def wrapped(tier):
+        base = fn(tier)
+        return base + split_variants(base)
+    wrapped.__name__ = fn.__name__
+    wrapped.__doc__ = fn.__doc__
+    return wrapped
+
+
+for _n in ("c01", "c02", "c03", "c04", "c05", "c06", "c07", "c28"):
+    globals()[_n] = _with_splits(globals()[_n])
